@@ -45,6 +45,7 @@ type Clients struct {
 	wts    []int
 	total  int
 	outstandingVerify []int
+	restoreOn         *Node // see loop()
 	active int
 	probeN int
 }
@@ -141,6 +142,15 @@ func (c *Clients) loop(cl int) {
 		}
 		if w.quiet && kind != "apply" && kind != "barrier" && kind != "verify" && kind != "getconfig" {
 			kind = "apply"
+		}
+		// operation placed inside another one: a Restore on the server that has just sent TimeoutNow
+		// for a leadership transfer (armed by the network stub when TimeoutNow is delivered)
+		if n := c.restoreOn; n != nil && !w.quiet {
+			c.restoreOn = nil
+			if n.inc != nil && n.inc.alive && n.inc.r != nil {
+				inc, kind = n.inc, "restore"
+				w.stats.probe("restore_issued_during_leadership_transfer")
+			}
 		}
 		if call := c.do(cl, kind, inc); call != nil && (call.ErrIs == "ErrNotLeader" || call.Crashed) {
 			simrt.Sleep("client-backoff", w.cfg.HeartbeatTimeout/4)
